@@ -145,10 +145,10 @@ def run_shard(spec):
     def wf(rng):
         style = rng.choice(["undo-heavy", "redo-heavy", "edit-after-undo"])
         if style == "undo-heavy":
-            return {"undo": 12, "redo": 4, "scenario": 1.0}
+            return {"undo": 12, "redo": 4, "scenario": 1.0, "ctrl": 0.8}
         if style == "redo-heavy":
-            return {"undo": 9, "redo": 9, "scenario": 1.0}
-        return {"undo": 8, "redo": 2, "add_node": 4, "add_edge": 5, "scenario": 1.0}
+            return {"undo": 9, "redo": 9, "scenario": 1.0, "ctrl": 0.8}
+        return {"undo": 8, "redo": 2, "add_node": 4, "add_edge": 5, "scenario": 1.0, "ctrl": 0.8}
 
     return common.run_sessions(spec, PROP, make_monitors,
                                lambda rng: gen.random_config(rng, p3d=0.1),
